@@ -99,6 +99,17 @@ type ArrObj struct {
 	ID   int
 	Elem types.Type
 	Sym  string
+	// Fresh: allocated by the code under analysis (make, append, literals), as
+	// opposed to memory that existed when the function was entered
+	Fresh bool
+}
+
+// writeRec: a write by the function body (or by a callee's modifies clause)
+type writeRec struct {
+	obj  *Obj
+	arr  *ArrObj
+	path []PathElem
+	what string
 }
 
 // ArrState is the content of a backing array at one point of a path.
@@ -236,6 +247,8 @@ type State struct {
 	trace []string
 	fs    map[int]*FState
 	ghost map[string]string // ghost field "name|identity term" -> value (sort U)
+	writes []writeRec       // frame log
+	logW   bool             // log havoc as writes (inside a callee's modifies clause)
 }
 
 func newState() *State {
@@ -255,6 +268,7 @@ func (s *State) clone() *State {
 	if s.fs != nil {
 		n.fs = cloneFS(s.fs)
 	}
+	n.writes = s.writes[:len(s.writes):len(s.writes)]
 	if s.ghost != nil {
 		n.ghost = make(map[string]string, len(s.ghost))
 		for k, v := range s.ghost {
@@ -319,7 +333,7 @@ func (w *World) newObj(t types.Type, name string) *Obj {
 
 func (w *World) newArr(elem types.Type, name string) *ArrObj {
 	w.nobj++
-	a := &ArrObj{ID: w.nobj, Elem: elem}
+	a := &ArrObj{ID: w.nobj, Elem: elem, Fresh: true}
 	a.Sym = w.st.fresh("arr_"+name, sortU)
 	return a
 }
@@ -426,6 +440,7 @@ func (w *World) fresh(s *State, t types.Type, name string, origin int) Val {
 		return VOpaque{T: w.st.fresh(name, sortU)}
 	case *types.Pointer:
 		p := VPtr{Root: w.newObj(tt.Elem(), name), Origin: origin, U: w.st.fresh(name+"_p", sortU)}
+		p.Root.Local = origin == OrigCall
 		switch origin {
 		case OrigKnown:
 			p.Nil = "false"
@@ -440,6 +455,7 @@ func (w *World) fresh(s *State, t types.Type, name string, origin int) Val {
 		s.assume(lenInv(l, c))
 		s.assume(mkImp(n, mkEq(c, bvLit(0, 64))))
 		a := w.newArr(tt.Elem(), name)
+		a.Fresh = origin == OrigCall
 		s.arrs[a] = w.freshArrState(tt.Elem(), name)
 		return VSlice{A: a, Off: bvLit(0, 64), Len: l, Cap: c, Nil: n}
 	case *types.Struct:
@@ -450,6 +466,7 @@ func (w *World) fresh(s *State, t types.Type, name string, origin int) Val {
 		return VStruct{F: f}
 	case *types.Array:
 		a := w.newArr(tt.Elem(), name)
+		a.Fresh = origin == OrigCall || origin == OrigKnown
 		s.arrs[a] = w.freshArrState(tt.Elem(), name)
 		return VArrRef{A: a, N: tt.Len()}
 	case *types.Interface:
@@ -709,6 +726,7 @@ func (w *World) store(s *State, p VPtr, v Val) {
 		w.note("store through unknown pointer")
 		return
 	}
+	s.writes = append(s.writes[:len(s.writes):len(s.writes)], writeRec{obj: p.Root, arr: p.Arr, path: p.Path, what: "store"})
 	if p.Arr != nil {
 		if _, ok := scalarWidth(p.Arr.Elem); ok && len(p.Path) == 0 {
 			iv, ok := v.(VInt)
@@ -827,6 +845,9 @@ func (w *World) havocReach(s *State, v Val, seen map[interface{}]bool) {
 			return
 		}
 		seen[x.Root] = true
+		if s.logW {
+			s.writes = append(s.writes[:len(s.writes):len(s.writes)], writeRec{obj: x.Root, path: x.Path, what: "callee modifies"})
+		}
 		cur, ok := s.mem[x.Root]
 		if !ok {
 			// never read in this state: give it fresh contents now (the shared
@@ -906,6 +927,9 @@ func (w *World) havocArr(s *State, a *ArrObj, seen map[interface{}]bool) {
 		return
 	}
 	seen[a] = true
+	if s.logW {
+		s.writes = append(s.writes[:len(s.writes):len(s.writes)], writeRec{arr: a, what: "callee modifies"})
+	}
 	as := s.arrs[a]
 	for _, e := range as.Elems {
 		if e != nil {
@@ -1083,6 +1107,7 @@ func (w *World) freshElem(s *State, base string, t types.Type, idx, path string)
 		s.assume(lenInv(l, c))
 		s.assume(mkImp(n, mkEq(c, bvLit(0, 64))))
 		a := w.newArr(tt.Elem(), base+path)
+		a.Fresh = false
 		s.arrs[a] = w.freshArrState(tt.Elem(), base+path)
 		return VSlice{A: a, Off: bvLit(0, 64), Len: l, Cap: c, Nil: n}
 	case *types.Struct:
